@@ -24,7 +24,10 @@ TABLE = {
     "serializer::engine::Engine::<'a, L>::process_quads::{closure#0}#index:Vec:call:serializer::engine::Engine::<'a, L>::index":
         (2, "index returned by Engine::index: either found in self.index or gs_id.len() before gs_id and node are both pushed"),
     "serializer::engine::Engine::<'a, L>::into_json::{closure#0}#index:Vec:param2":
-        (1, "inode comes from enumerate() over self.node"),
+        (2, "inode comes from enumerate() over self.node; and `gs_id[*is]` for `is` taken from compound_literals, which process_quads "
+            "fills with indexes returned by Engine::index (gs_id and node have equal length)"),
+    "serializer::engine::Engine::<'a, L>::into_json::{closure#0}::{closure#0}#index:Vec:param2.f0:":
+        (1, "gs_id[*iparent]: iparent is the node index stored in unique_parent by process_quads (produced by Engine::index)"),
     "serializer::engine::Engine::<'a, L>::jsonify#index:Vec:param2":
         (1, "inode is an index of self.node (enumerate() or an RdfObject::Node payload, both produced by Engine::index); gs_id and node have equal length"),
     "serializer::engine::Engine::<'a, L>::jsonify::{closure}#index:Vec:param2":
@@ -35,7 +38,7 @@ TABLE = {
         (1, "RdfObject::Node payload: produced by Engine::index"),
     "serializer::engine::Engine::<'a, L>::mark_list_node#index:Vec:place":
         (2, "inode is a list seed or a unique parent, both indexes produced by Engine::index"),
-    "serializer::engine::Engine::<'a, L>::mark_list_node#index:Vec:proj-of-call:std::option::Option::<T>::and_then":
+    "serializer::engine::Engine::<'a, L>::mark_list_node#index:Vec:proj-of-call:std::collections::HashMap::<K, V, S, A>::get":
         (1, "iparent stored in unique_parent was produced by Engine::index"),
     "serializer::engine::Engine::<'a, L>::populate_list#index:Vec:place":
         (1, "inode is the payload of an RdfObject::Node (head) or of the rdf:rest object of a list node"),
@@ -253,21 +256,51 @@ def unique_parent_rule(ck, facts):
     """R12.3: in the and_modify closure of unique_parent, an existing parent is dropped iff it differs from the new one
     in ANY component (subject slot or predicate)."""
     fns = facts.find_fns(crate="sophia_jsonld", name_re=r"engine::Engine::<'a, L>::process_quads::\{closure#0\}::\{closure#\d+\}$")
-    cands = [f for f in fns if any(call_name_matches(t, r"Option::<T>::take$") for _, t in f.calls())]
+    cands = [(f, 0) for f in fns if any(call_name_matches(t, r"Option::<T>::take$") for _, t in f.calls())]
+    PARENT_TY = "(usize, std::boxed::Box<str>)"
+
+    def is_reset_stmt(f, st):
+        """`*slot = None` on an Option<(usize, Box<str>)>"""
+        if not (st[0] == "=" and len(st[1]) >= 2 and st[1][-1] == "*" and PARENT_TY in f.locals[st[1][0]]["ty"]):
+            return False
+        rv = st[2]
+        if rv[0] == "agg":
+            return rv[1].get("vname") == "None"
+        if rv[0] == "use" and rv[1][0] != "k":
+            o = f.origin(rv[1])
+            return o[0] == "agg" and o[1].get("vname") == "None"
+        return False
+    if not cands:
+        # the same update written as an explicit `match map.entry(k) { Vacant(..) => .., Occupied(..) => .. }` in the per-quad closure
+        for f in facts.find_fns(crate="sophia_jsonld", name_re=r"engine::Engine::<'a, L>::process_quads::\{closure#0\}$"):
+            for bi, b in enumerate(f.blocks):
+                t = b["t"]
+                if t["t"] == "switch" and re.search(r"hash(_map|::map)::Entry$", str((t.get("variants") or {}).get("enum", ""))):
+                    names = t["variants"]["names"]
+                    occ = [tb for v, tb in t["vals"] if names.get(v) == "Occupied"] or [t["else"]]
+                    if any(is_reset_stmt(f, st) for x in f.reachable(occ[0]) for st in f.blocks[x]["s"]):
+                        cands.append((f, occ[0]))
     if len(cands) != 1:
-        ck.bad("R12.3", "R12.3@unique_parent#anchor", "anchor-missing: the and_modify closure resetting unique_parent (%d)" % len(cands))
+        ck.bad("R12.3", "R12.3@unique_parent#anchor", "anchor-missing: the update of unique_parent that forgets a parent (%d)" % len(cands))
         return
-    c = cands[0]
+    c, start = cands[0]
 
     def tok(t):
         if call_name_matches(t, r"Option::<T>::take$"):
             return "take"
         return None
+
+    def stm(st):
+        return "take" if is_reset_stmt(c, st) else None
     try:
-        paths = enumerate_paths(c, 0, tok)
+        paths = enumerate_paths(c, start, tok, on_stmt=stm, max_paths=4000)
     except CheckError as e:
         ck.bad("R12.3", "R12.3@unique_parent#shape", str(e), c.loc)
         return
+    if start:
+        # only the comparisons of two parents count (the closure goes on with unrelated tests)
+        paths = [([cd for cd in conds if not re.search(r"PartialEq(<.*>)?>?::(ne|eq)$", cd[0])
+                   or (cd[2][0] == "call" and PARENT_TY in " ".join(cd[2][1]["f"].get("substs") or []))], toks) for conds, toks in paths]
     cmp_names = set()
     table = {}
     for conds, toks in paths:
@@ -365,34 +398,42 @@ def list_suppression_rule(ck, facts):
         ck.ok("R12.7", "jsonify: a list node is left out only when its graph is the graph of the list's parent")
 
 
+def _len_is_one_edges(c):
+    """(block, successor) edges on which a `len()` of a Vec / slice is known to be exactly 1: the true edge of `len() == 1`,
+    the false edge of `len() != 1`"""
+    out = []
+    for bi in range(len(c.blocks)):
+        tt = c.blocks[bi]["t"]
+        if tt["t"] == "switch" and tt.get("ty") == "bool" and tt["on"][0] != "k":
+            sd = c.single_def(tt["on"][1][0])
+            if sd is not None and sd[2][0] == "bin" and sd[2][1] in ("Eq", "Ne"):
+                a, b = c.origin(sd[2][2]), c.origin(sd[2][3])
+                one = [x for x in (a, b) if x[0] == "const" and x[1].get("v") == "1"]
+                ln = [x for x in (a, b) if x[0] == "call" and call_name_matches(x[1], r"Vec::<T, A>::len$|slice::<impl \[T\]>::len$")]
+                if one and ln:
+                    vals = dict((v, tb) for v, tb in tt["vals"])
+                    true_t = tt["else"] if "0" in vals else vals.get("1")
+                    false_t = vals.get("0") if "0" in vals else tt["else"]
+                    out.append((bi, true_t if sd[2][1] == "Eq" else false_t))
+    return out
+
+
 def singleton_rule(ck, facts):
     """R12.8: a node is folded into a `@list` (or a compound literal) only if each of the properties inspected has *exactly
-    one* value: in is_list_node / is_compound_literal every closure that inspects a value vector tests `len() == 1`, and
-    whatever else it looks at (eq_node, is_node, is_literal ...) is evaluated only on the true edge of that test.  (`any(..)`
-    over the values of `@type` would suppress a cell that also carries another type, and lose that statement.)"""
+    one* value: in is_list_node / is_compound_literal every inspection of an element of a value vector (eq_node, is_node,
+    is_literal ... on `v[0]`) happens on an edge where `len() == 1` is established (true edge of `==`, false edge of `!=`),
+    whether the test is written inside an `is_some_and` closure or as a guard clause of the function.  (`any(..)` over the
+    values of `@type` would suppress a cell that also carries another type, and lose that statement.)"""
     n = 0
     for name in ("is_list_node", "is_compound_literal"):
         fns = facts.find_fns(crate="sophia_jsonld", name_re=r"^serializer::engine::%s$" % name)
         if len(fns) != 1:
             ck.bad("R12.8", "R12.8@%s#anchor" % name, "anchor-missing: %s (%d)" % (name, len(fns)))
             continue
-        clos = facts.with_closures(fns[0])[1:]
-        for c in clos:
-            n += 1
-            lens = []
-            for bi in range(len(c.blocks)):
-                tt = c.blocks[bi]["t"]
-                if tt["t"] == "switch" and tt.get("ty") == "bool" and tt["on"][0] != "k":
-                    sd = c.single_def(tt["on"][1][0])
-                    if sd is not None and sd[2][0] == "bin" and sd[2][1] == "Eq":
-                        a, b = c.origin(sd[2][2]), c.origin(sd[2][3])
-                        one = [x for x in (a, b) if x[0] == "const" and x[1].get("v") == "1"]
-                        ln = [x for x in (a, b) if x[0] == "call" and call_name_matches(x[1], r"Vec::<T, A>::len$|slice::<impl \[T\]>::len$")]
-                        if one and ln:
-                            vals = dict((v, tb) for v, tb in tt["vals"])
-                            true_t = tt["else"] if "0" in vals else vals.get("1")
-                            lens.append((bi, true_t))
-            others = [(bi, t) for bi, t in c.calls() if not call_name_matches(t, r"::len$")]
+        for c in facts.with_closures(fns[0]):
+            lens = _len_is_one_edges(c)
+            is_closure = c.kind == "Closure"
+            n += len(lens)
             direct = False
             for bk in c.blocks:
                 for st in bk["s"]:
@@ -401,16 +442,29 @@ def singleton_rule(ck, facts):
                         if any(x[0] == "const" and x[1].get("v") == "1" for x in (a, b)) and \
                                 any(x[0] == "call" and call_name_matches(x[1], r"Vec::<T, A>::len$|slice::<impl \[T\]>::len$") for x in (a, b)):
                             direct = True
+            if is_closure:
+                others = [(bi, t) for bi, t in c.calls() if not call_name_matches(t, r"::len$")]
+            else:
+                # in the function body: element accesses and what is done with the elements
+                idx = [(bi, t) for bi, t in c.calls() if call_name_matches(t, r"ops::Index<.*>>?::index$") and len(t["args"]) > 1
+                       and c.origin(t["args"][1])[0] == "const"]
+                dests = {t["dest"][0] for _, t in idx if t["dest"]}
+                elem = [(bi, t) for bi, t in c.calls() if t["args"] and any(p_[0] == "call" and p_[1]["dest"] and p_[1]["dest"][0] in dests
+                                                                         for p_ in provenance(c, t["args"][0])) and (bi, t) not in idx]
+                others = idx + elem
+                if not others and not lens:
+                    continue          # the body only dispatches to closures
             if direct and not others:
+                n += 1
                 ck.ok("R12.8", "%s: the verdict is `len() == 1` itself (%s)" % (name, c.name.split("::")[-1]))
                 continue
-            if not lens:
+            if others and not lens:
                 ck.bad("R12.8", "R12.8@%s#no-singleton-test" % name, "a value vector is inspected in %s without requiring exactly one value" % name, c.loc)
             elif any(not any(edge_dominates(c, e, bi) for e in lens) for bi, _ in others):
                 ck.bad("R12.8", "R12.8@%s#test-not-guarding" % name, "in %s a value is inspected outside the `len() == 1` branch" % name, c.loc)
             else:
                 ck.ok("R12.8", "%s: values inspected only when there is exactly one (%s)" % (name, c.name.split("::")[-1]))
-    ck.floor("R12.8", "value-vector closures in is_list_node / is_compound_literal", n, 6)
+    ck.floor("R12.8", "exactly-one-value tests in is_list_node / is_compound_literal", n, 6)
 
 
 def label_keeping_rule(ck, facts):
@@ -426,15 +480,21 @@ def label_keeping_rule(ck, facts):
         ck.bad("R12.9", "R12.9@process_quads#anchor", "anchor-missing: the per-quad closure (%d)" % len(clos), fns[0].loc)
         return
     c = clos[0]
+    def poisons(f, t):
+        """`self.unique_parent.insert(key, None)`"""
+        if not call_name_matches(t, r"HashMap::<K, V, S, A>::insert$|HashMap::<K, V, S>::insert$") or len(t["args"]) < 3:
+            return False
+        recv = root_local(f, t["args"][0])
+        if not recv or not any(str(p_).endswith(":unique_parent") for p_ in recv[1]):
+            return False
+        v = f.origin(t["args"][2])
+        return v[0] == "agg" and v[1].get("vname") == "None"
+    # small helper methods of the engine that do nothing but poison an entry
+    helpers = {f.id for f in facts.fns.values() if f.crate == "sophia_jsonld" and f.kind != "Closure" and len(f.blocks) <= 10
+               and any(poisons(f, t) for _, t in f.calls())}
     classes = set()
     for bi, t in c.calls():
-        if not call_name_matches(t, r"HashMap::<K, V, S, A>::insert$|HashMap::<K, V, S>::insert$") or len(t["args"]) < 3:
-            continue
-        recv = root_local(c, t["args"][0])
-        if not recv or not any(str(p).endswith(":unique_parent") for p in recv[1]):
-            continue
-        v = c.origin(t["args"][2])
-        if not (v[0] == "agg" and v[1].get("vname") == "None"):
+        if not (poisons(c, t) or (t["f"].get("res") or t["f"].get("def")) in helpers):
             continue
         for gb in range(len(c.blocks)):
             bs = bool_switch(c, gb)
@@ -478,6 +538,92 @@ def typed_list_rule(ck, facts):
         ck.ok("R12.10", "is_list_node does not accept typed list nodes")
 
 
+def crossed_fields(facts, fn, adt_suffix):
+    """struct-rebuilding builders: a field initialised from `self.<another field>` of the same struct.  Returns
+    [(field, source field)]."""
+    adt = [v for k, v in facts.adts.items() if k.endswith(adt_suffix)]
+    if len(adt) != 1:
+        return None
+    names = [f["name"] for f in adt[0]["variants"][0]["fields"]]
+    out = []
+    for b in fn.blocks:
+        for st in b["s"]:
+            if st[0] == "=" and st[2][0] == "agg" and str(st[2][1].get("def", "")).endswith(adt_suffix) and len(st[2][2]) == len(names):
+                for fname, op in zip(names, st[2][2]):
+                    o = fn.origin(op)
+                    if o[0] == "param" and o[1] == 1:
+                        src = [p_.split(":")[1] for p_ in o[2] if ":" in p_ and p_.split(":")[1]]
+                        if src and src[0] in names and src[0] != fname:
+                            out.append((fname, src[0]))
+    return out
+
+
+def builders_rule(ck, facts):
+    """R12.11: the builders of JsonLdOptions that rebuild the whole struct (to change the loader type) copy every other option
+    from the field of the same name."""
+    import core
+    cf = crossed_fields(core.fixture_facts(), core.fixture_fn("Opts::<L>::pos_with_loader_crossed"), "::Opts")
+    ck.control("R12.11", "Opts::pos_with_loader_crossed", bool(cf))
+    cf = crossed_fields(core.fixture_facts(), core.fixture_fn("Opts::<L>::neg_with_loader"), "::Opts")
+    ck.control("R12.11", "Opts::neg_with_loader", bool(cf), expect=False)
+    n = 0
+    for f in sorted(facts.fns.values(), key=lambda x: x.id):
+        if f.crate != "sophia_jsonld" or "options::JsonLdOptions" not in f.name or f.kind == "Closure":
+            continue
+        cr = crossed_fields(facts, f, "options::JsonLdOptions")
+        if cr is None:
+            ck.bad("R12.11", "R12.11@JsonLdOptions#anchor", "anchor-missing: struct JsonLdOptions")
+            return
+        if not any(st[0] == "=" and st[2][0] == "agg" and str(st[2][1].get("def", "")).endswith("options::JsonLdOptions") for b in f.blocks for st in b["s"]):
+            continue
+        n += 1
+        short = f.name.split("::")[-1]
+        if cr:
+            ck.bad("R12.11", "R12.11@JsonLdOptions::%s#crossed-field:%s<-%s" % (short, cr[0][0], cr[0][1]), "%s rebuilds the options with `%s: self.%s`: "
+                   "the option is silently replaced by another one (with_use_rdf_type(true) followed by a loader builder runs with "
+                   "use_rdf_type = use_native_types)" % (short, cr[0][0], cr[0][1]), f.loc)
+        else:
+            ck.ok("R12.11", "JsonLdOptions::%s copies every option from the field of the same name" % short)
+    ck.floor("R12.11", "struct-rebuilding builders of JsonLdOptions", n, 4)
+
+
+def compound_literal_rule(ck, facts):
+    """R12.12: a compound-literal candidate is left out of the node objects only if something renders it: the closure that keeps
+    the candidates (`compound_literals.retain(..)`) must consult unique_parent, not only the node's own shape."""
+    fns = facts.find_fns(crate="sophia_jsonld", name_re=r"Engine::<'a, L>::into_json$")
+    if len(fns) != 1:
+        ck.bad("R12.12", "R12.12@into_json#anchor", "anchor-missing (%d)" % len(fns))
+        return
+    fn = fns[0]
+    ret = [t for _, t in fn.calls() if call_name_matches(t, r"HashSet::<T, S, A>::retain$|HashSet::<T, S>::retain$")]
+    if len(ret) != 1:
+        ck.bad("R12.12", "R12.12@into_json#anchor", "anchor-missing: compound_literals.retain(..) (%d)" % len(ret), fn.loc)
+        return
+    o = fn.origin(ret[0]["args"][1])
+    cf = facts.fns.get(o[1]["def"]) if o[0] == "agg" and o[1].get("k") == "closure" else None
+    if cf is None:
+        ck.bad("R12.12", "R12.12@into_json#anchor", "anchor-missing: the retain closure", fn.loc)
+        return
+    units = facts.with_closures(cf)
+    shape = any(call_name_matches(t, r"engine::is_compound_literal$") for u in units for _, t in u.calls())
+    parent = any(":unique_parent" in str(st) for u in units for b in u.blocks for st in b["s"])
+    # with disjoint closure captures the field is borrowed where the closure is built
+    for b in fn.blocks:
+        for st in b["s"]:
+            if st[0] == "=" and st[2][0] == "agg" and st[2][1].get("def") == cf.id:
+                for op in st[2][2]:
+                    if op[0] != "k":
+                        sd = fn.single_def(op[1][0])
+                        if ":unique_parent" in str(op) or (sd is not None and ":unique_parent" in str(sd[2])):
+                            parent = True
+    if shape and parent:
+        ck.ok("R12.12", "compound literals are folded only if is_compound_literal() and a unique parent is recorded")
+    else:
+        ck.bad("R12.12", "R12.12@into_json#compound-literal-without-reference-check", "a blank node with rdf:value + rdf:direction is left out of "
+               "the node objects on its shape alone (is_compound_literal=%s, unique_parent consulted=%s): if nothing, or a node of "
+               "another graph, or several nodes refer to it, its quads are lost" % (shape, parent), cf.loc)
+
+
 def run(ck, facts, tier):
     facts.require_crates(["sophia_jsonld"])
     singleton_rule(ck, facts)
@@ -487,6 +633,8 @@ def run(ck, facts, tier):
     unique_parent_rule(ck, facts)
     label_keeping_rule(ck, facts)
     typed_list_rule(ck, facts)
+    builders_rule(ck, facts)
+    compound_literal_rule(ck, facts)
     fns = [f for f in facts.fns.values() if f.crate == "sophia_jsonld" and re.search(r"jsonld/src/(serializer|util_traits)", f.file)]
     ck.floor("R12.2", "serializer functions", len(fns), 60)
     sites = []
